@@ -199,25 +199,6 @@ func hasLoneCR(content []byte) bool {
 	return bytes.Contains(content, []byte("\xc2\x85")) || bytes.Contains(content, []byte("\xe2\x80\xa8")) || bytes.Contains(content, []byte("\xe2\x80\xa9"))
 }
 
-// eofImplicitNull: the class predicate of the open known finding C02-eof-implicit-null: every node of the forest that
-// lies outside the file (nl physical lines) is an empty !!null scalar on line nl+1 - yaml.v3 places the implicit
-// value of a `? key` without `: value` at the end of the input on the line after the last one.
-func eofImplicitNull(docs []parser.VerifDoc, nl int) bool {
-	found, other := false, false
-	for _, d := range docs {
-		walkForest(d.Node, map[*yaml.Node]bool{}, func(n *yaml.Node) {
-			if n.Line > nl {
-				if n.Kind == yaml.ScalarNode && n.Value == "" && n.ShortTag() == "!!null" && n.Line == nl+1 {
-					found = true
-				} else {
-					other = true
-				}
-			}
-		})
-	}
-	return found && !other
-}
-
 // coqExpandCases: the real diags.LineRange.Expand on the line ranges of this file's problems plus adversarial ranges
 // (empty, inverted by one, inverted by more: `make([]int, 0, Last-First+1)` panics on a negative capacity).
 func coqExpandCases(id int, observed [][2]int) string {
@@ -341,7 +322,7 @@ func runC02One(args []string) int {
 	}
 	if term != "" {
 		o.Term = fmt.Sprintf("{| c_base := %s;\n c_entries_strict := %s;\n c_entries_relaxed := %s;\n c_lone_cr := %s;\n c_expand := %s |}",
-			term, obsS, obsR, coqBool(hasLoneCR(content) || eofImplicitNull(lastDocs, nl)), coqExpandCases(id, expandPairs))
+			term, obsS, obsR, coqBool(hasLoneCR(content)), coqExpandCases(id, expandPairs))
 	} else {
 		o.Hist = append(o.Hist, "skipped:forest-too-large")
 	}
@@ -457,17 +438,13 @@ func runC02(args []string) int {
 		tcyc := hasTemplateAliasCycle(it.content)
 		shadow := groupLabelShadowedAfterRules(docs)
 		loneCR := hasLoneCR(content)
-		eofNull := eofImplicitNull(docs, nl)
 		addFail := func(what string, variant string, relaxed bool, extra any) {
 			of := oracleFail{ID: fmt.Sprint(id), What: what, Case: map[string]any{"content": it.content, "class": it.class, "variant": variant, "lines": nl, "observed": extra}}
 			// classes repaired in pint (f44c1ab, da58998, 5f8fd57, aba0d51, 4008951, 147313f) are no longer known
 			// findings: a recurrence is reported as a violation.  Open: line numbers of files with lone CR breaks.
-			// (line numbers beyond the file, and ranges inverted by the mix of yaml lines and LF lines, which the JSON
-			// line expansion answers with a makeslice panic)
-			if loneCR && (strings.Contains(what, "outside the file") || strings.Contains(what, "makeslice: cap out of range")) {
+			// (C02-eof-implicit-null and the makeslice panic on inverted ranges are repaired by 5430596 / 5f804fb: a recurrence is a violation)
+			if loneCR && strings.Contains(what, "outside the file") {
 				of.Known = "C02-lone-cr"
-			} else if eofNull && strings.Contains(what, "outside the file") {
-				of.Known = "C02-eof-implicit-null"
 			}
 			o.fails = append(o.fails, of)
 		}
@@ -514,9 +491,6 @@ func runC02(args []string) int {
 		}
 		if loneCR {
 			o.hist = append(o.hist, "has:lone-cr")
-		}
-		if eofNull {
-			o.hist = append(o.hist, "has:eof-implicit-null")
 		}
 		if tcyc {
 			o.hist = append(o.hist, "has:template-alias-cycle")
